@@ -89,6 +89,8 @@ type UnitOpts struct {
 	// they are proved in another unit of the same plan (the plan checks that). Sound: a conjunction of
 	// invariants is inductive if each conjunct is preserved under the assumption of all of them.
 	AssumeGroups []string
+	// AssumePre: preconditions of callees are assumed (and listed), not proved: they belong to another plan
+	AssumePre bool
 	// SkipLoopFrame: no loopframe obligations (they depend on the code alone, not on the clause groups;
 	// when a function is proved in many units one of them generates them)
 	SkipLoopFrame bool
@@ -359,6 +361,7 @@ func (f *Frame) checkPost(st *State, vals []*V) {
 	u := f.u
 	ct := f.contract
 	u.coverCheck(st, "return")
+	st = f.ghostUpdates(st, vals)
 	ctx := f.specCtxAt(st, f.curBlock, f.curIdx)
 	bindResults(ctx.env, f.fn.Signature, vals)
 	for i, e := range ct.Ensures {
@@ -367,6 +370,18 @@ func (f *Frame) checkPost(st *State, vals []*V) {
 			label = fmt.Sprintf("%d", i)
 		}
 		if !f.wantPost(label) {
+			continue
+		}
+		if strings.HasPrefix(label, "ghost-") {
+			// the definition of a ghost field's new value (a ghost assignment written as a postcondition): ghost
+			// fields are not touched by code, so there is nothing in the body to check it against
+			u.note("ghost update " + label + " of " + ct.Func + ": " + e.Src)
+			continue
+		}
+		if strings.HasPrefix(label, "assumed-") {
+			// an assumed postcondition (the model of a dependency the body rests on): used at call sites,
+			// listed in the evidence, never an obligation
+			u.note("assumed postcondition " + label + " of " + ct.Func + ": " + e.Src)
 			continue
 		}
 		u.oblige(st, "post", label, ctx.evalGoal(e.E), "ensures "+e.Src)
@@ -382,6 +397,53 @@ func (f *Frame) checkPost(st *State, vals []*V) {
 	if u.opts.Frame && (ct.HasMod || ct.Pure) {
 		f.checkFrame(st, ctx)
 	}
+}
+
+// ghostUpdates: an ensures clause labelled ghost-<field> is the assignment of ghost field <field> at the
+// return (ghost fields are not touched by code): the field is havocked at the objects the modifies clause
+// lists for it, the clause is assumed, and the other postconditions are checked in the resulting state.
+func (f *Frame) ghostUpdates(st *State, vals []*V) *State {
+	u := f.u
+	ct := f.contract
+	var gcl []Clause
+	for _, e := range ct.Ensures {
+		if strings.HasPrefix(e.Label, "ghost-") {
+			gcl = append(gcl, e)
+		}
+	}
+	if len(gcl) == 0 {
+		return st
+	}
+	gst := st.clone()
+	ctx0 := f.specCtxAt(st, f.curBlock, f.curIdx)
+	items := f.parseFootprint(ct, ctx0, f.entry)
+	done := map[string]bool{}
+	for _, e := range gcl {
+		field := strings.TrimPrefix(e.Label, "ghost-")
+		for _, it := range items {
+			for _, k := range it.keys {
+				if !isGhostKey(k.key) || !strings.HasSuffix(k.key, "."+field) || done[k.key] {
+					continue
+				}
+				done[k.key] = true
+				old := u.heapGet(gst, k.key, k.sort)
+				nh := u.heapHavoc(gst, k.key, k.sort)
+				if it.bases != nil {
+					var excl []string
+					for _, b := range it.bases {
+						excl = append(excl, fmt.Sprintf("(not (= r!q %s))", b.S))
+					}
+					u.assume(gst, T{fmt.Sprintf("(forall ((r!q Int)) (! (=> (and %s) (= (select %s r!q) (select %s r!q))) :pattern ((select %s r!q))))", strings.Join(excl, " "), nh.S, old.S, nh.S), SBool})
+				}
+			}
+		}
+	}
+	ctx := f.specCtxAt(gst, f.curBlock, f.curIdx)
+	bindResults(ctx.env, f.fn.Signature, vals)
+	for _, e := range gcl {
+		u.assume(gst, ctx.evalBool(e.E))
+	}
+	return gst
 }
 
 // checkFrame: objects that existed at entry and are not in the modifies
@@ -412,6 +474,49 @@ func (f *Frame) checkFrame(st *State, ctx *SpecCtx) {
 				goal := T{fmt.Sprintf("(forall ((r!q Int)) (=> (and (<= (root r!q) %s) %s) (= (select %s r!q) (select %s r!q))))", f.entry.alloc.S, u.kindCond(k), now.S, init.S), SBool}
 				u.oblige(st, "frame", "excepted "+k.key, goal, "objects of an excepted type that existed at entry are not written: "+k.key)
 			}
+		}
+		// "*" does not include ghost fields: each one that changed has to be listed by name
+		listed := map[string][]fpItem{}
+		for _, it := range items {
+			for _, k := range it.keys {
+				if isGhostKey(k.key) && !it.except {
+					listed[k.key] = append(listed[k.key], it)
+				}
+			}
+		}
+		var gkeys []string
+		for k := range st.heap {
+			if isGhostKey(k) {
+				gkeys = append(gkeys, k)
+			}
+		}
+		sort.Strings(gkeys)
+		for _, k := range gkeys {
+			srt := u.heapSort[k]
+			init := u.epochInit(k, srt, 0)
+			now := st.heap[k]
+			if now.S == init.S {
+				continue
+			}
+			whole := false
+			var excl []string
+			for _, it := range listed[k] {
+				if it.bases == nil {
+					whole = true
+				}
+				for _, b := range it.bases {
+					excl = append(excl, fmt.Sprintf("(not (= r!q %s))", b.S))
+				}
+			}
+			if whole {
+				continue
+			}
+			cnd := fmt.Sprintf("(<= (root r!q) %s)", f.entry.alloc.S)
+			if len(excl) > 0 {
+				cnd = "(and " + cnd + " " + strings.Join(excl, " ") + ")"
+			}
+			goal := T{fmt.Sprintf("(forall ((r!q Int)) (=> %s (= (select %s r!q) (select %s r!q))))", cnd, now.S, init.S), SBool}
+			u.oblige(st, "frame", k, goal, "ghost state changes only where the modifies clause lists it: "+k)
 		}
 		return
 	}
